@@ -527,7 +527,7 @@ def c35(run):
 
 
 CONF = ["pc", "psr", "regs", "ssp", "mcr", "prefetch", "fno", "frames", "icount", "obs", "kbd", "kbdie",
-        "disp", "timers", "mem", "alloca", "res", "draw", "panic", "unknown-event"]
+        "disp", "timers", "mem", "alloca", "res", "draw", "panic", "unknown-event", "pause", "nsteps"]
 
 
 def machine_args(run, extra=()):
@@ -595,7 +595,23 @@ def c28(run):
 
 
 PAIRV = ["header", "flags", "length", "differs", "shape", "strict-changed-step",
-         "strict-error-on-initialized-machine", "host-differs"]
+         "strict-error-on-initialized-machine", "host-differs", "final-differs"]
+
+
+@check("C13")
+def c13(run):
+    r, path, n, rej = run.trace_leg("run", ["machine", "kind=run"], verdict=CONF + ["nsteps", "pause"])
+    run.trace_leg("segments", ["machine", "kind=run"], spec="TV_Pairs", cfg="TV_Pairs.cfg",
+                  verdict=PAIRV + ["final-differs"], expect_all=False, path=path)
+    return run.finish(
+        rule="programs with calls, traps and loops; random sequences of run / run_with_limit / step_over / step_out / "
+             "run_while(pc != a) / step_in with PC, register and memory breakpoints, step limits, MCR cleared by another "
+             "party at a chosen poll, scripted vectored and external interrupts, exact timers; each call is validated by "
+             "TLC against Run!RunCall = Machine!StepF iterated up to the first boundary where a documented stop "
+             "condition holds (number of steps, outcome, pause reason and full projection); segmented executions are "
+             "paired with one unbroken run and TLC requires equal final state (registers, PC, PSR, instruction count, "
+             "output, digest of all memory)",
+        level_note="runs are bounded by an MCR clear at a logged poll; timers in run scenarios are exact (deterministic draws)")
 
 
 @check("C14")
